@@ -124,6 +124,16 @@ def run_case(case, ctx):
                 o = seeded(ttb.cp_als, T, R, printitn=pr, **kw)
                 _cmp(ctx, op, denote(base[0]), denote(o[0]), f"printitn=0 vs {pr}", printitn=pr)
                 ctx.check(abs(base[2]["fit"] - o[2]["fit"]) <= 1e-8, op, "DIFFERS", f"fit differs with printitn={pr}", what="fit")
+            # ... also when only some modes are optimised (the last mode of the order among the fixed ones)
+            od = sorted(int(x) for x in rng.permutation(N)[: N - 1])
+            do_ = [d for d in range(N) if d in od] + [d for d in range(N) if d not in od]
+            Mg = ttb.ktensor([rng.random((s_, R)) for s_ in shape])
+            base = _quiet(ttb.cp_als, T, R, init=Mg.copy(), printitn=0, optdims=od, dimorder=do_, **kw)
+            for pr in (1, 3):
+                o = _quiet(ttb.cp_als, T, R, init=Mg.copy(), printitn=pr, optdims=od, dimorder=do_, **kw)
+                _cmp(ctx, op, denote(base[0]), denote(o[0]), f"optdims={od}: printitn=0 vs {pr}", printitn=pr, optdims=True)
+                ctx.check(abs(base[2]["fit"] - o[2]["fit"]) <= 1e-8, op, "DIFFERS", f"optdims={od}: fit {base[2]['fit']!r} vs {o[2]['fit']!r} with printitn={pr}", what="fit",
+                          optdims=True)
         elif rel == "seed":
             a = seeded(ttb.cp_als, T, R, printitn=0, **kw)
             b = seeded(ttb.cp_als, T, R, printitn=0, **kw)
@@ -175,6 +185,14 @@ def run_case(case, ctx):
                 inv = np.argsort(p)
                 o = _quiet(ttb.hosvd, T.permute(p), 0.3, verbosity=0, dimorder=[int(inv[d]) for d in do])
                 _cmp(ctx, op, np.transpose(denote(base), p), denote(o), f"modes relabelled by {p.tolist()}")
+            # ... and with prescribed, unequal ranks (relabelled together with the modes)
+            rk_ = np.array([min(s_, r_) for s_, r_ in zip(shape, (3, 1, 2))])
+            base = _quiet(ttb.hosvd, T, 0.3, verbosity=0, dimorder=do, ranks=rk_.copy())
+            for p in perms:
+                inv = np.argsort(p)
+                o = _quiet(ttb.hosvd, T.permute(p), 0.3, verbosity=0, dimorder=[int(inv[d]) for d in do], ranks=rk_[p].copy())
+                ctx.check(tuple(o.core.shape) == tuple(int(x) for x in rk_[p]), op, "DIFFERS", f"relabelled ranks {rk_[p].tolist()} give core {tuple(o.core.shape)}", what="ranks")
+                _cmp(ctx, op, np.transpose(denote(base), p), denote(o), f"modes (and prescribed ranks) relabelled by {p.tolist()}", ranks="given")
     elif alg == "tucker_als":
         op = "tucker_als"
         rk = [2] * N
